@@ -196,7 +196,7 @@ impl Memory {
                 for i in 1..(bits / 8) {
                     value = il::Expression::or(
                         il::Expression::shl(value, il::expr_const(8, bits)).unwrap(),
-                        il::expr_const(self.get8(address + i as u64).unwrap() as u64, bits),
+                        il::expr_const(self.get8(address + i as u64)? as u64, bits),
                     )
                     .unwrap();
                 }
@@ -206,7 +206,7 @@ impl Memory {
                 for i in 1..(bits / 8) {
                     value = il::Expression::or(
                         il::Expression::shl(
-                            il::expr_const(self.get8(address + i as u64).unwrap() as u64, bits),
+                            il::expr_const(self.get8(address + i as u64)? as u64, bits),
                             il::expr_const((i * 8) as u64, bits),
                         )
                         .unwrap(),
